@@ -74,6 +74,7 @@ TypeTok(ty) ==   \* tokens of a type
   \*  knows that a comment placed directly after such a token is the "soft" layout, judged apart)
   CASE ty.t = "number" -> <<"~number">> [] ty.t = "string" -> <<"~string">> [] ty.t = "boolean" -> <<"~boolean">>
     [] ty.t = "date" -> <<"~date">> [] ty.t = "Any" -> <<"~Any">>
+    [] ty.t = "named" -> <<"~" \o ty.name>>                                   \* an item definition's name
     [] ty.t = "list" -> <<"~list", "~<">> \o (IF ty.of.t = "number" THEN <<"~number">> ELSE <<"~string">>) \o <<"~>">>
     [] ty.t = "ctx" -> <<"~context", "~<", "~a", "~:", "~number", "~>">>
     [] ty.t = "fn" -> <<"~function", "~<", "~number", "~>", "~->", "~string">>
